@@ -55,6 +55,14 @@ template <>
 struct Scalar<long double> : FloatScalar<long double> {
   static constexpr const char *name = "long double";
 };
+// integer-like scalar (offers every documented operation; division truncates): used only with inputs for which
+// every quantity the library forms is an integer (integer grid points of equal parity, integer coefficients)
+template <>
+struct Scalar<long> {
+  static long make(i64 n, i64 d) { return (long)(n / (d < 1 ? 1 : d)); }
+  static R exact(long v) { return R(v); }
+  static constexpr const char *name = "long";
+};
 template <class T>
 R exact(const T &v) {
   return Scalar<T>::exact(v);
